@@ -805,6 +805,10 @@ func (fx *FnCtx) specEqual(x SpecExpr, a, b SV) *Term {
 	if len(a.V.L) != len(b.V.L) {
 		fx.specFail(x, "comparison of %v and %v", a.V.T, b.V.T)
 	}
+	if isStringType(a.V.T) && isStringType(b.V.T) && len(a.V.L) == 3 && len(b.V.L) == 3 {
+		// strings compare by content (its identity is strKey), as == does in the code
+		return fx.stringsEqual(a.V, b.V)
+	}
 	if _, ok := a.V.T.Underlying().(*types.Slice); ok {
 		// same view: same array, offset and length
 		return And(Eq(a.V.L[0], b.V.L[0]), Eq(a.V.L[1], b.V.L[1]), Eq(a.V.L[2], b.V.L[2]))
